@@ -45,3 +45,12 @@ check(
     "stateful property testing with an all-pairs history invariant",
     "DESIGN.md section 3 C08",
 )
+
+check(
+    "C09",
+    "exploration",
+    "Generated histories on tree-git and bare-git collections; after every step the real git CLI audits every collection repository (commit chain append-only and linear, commit count per acknowledged change, HEAD tree = model members with the served bytes, clean status for non-bare, fsck --strict).",
+    "Trusted: git 2.39 as the reference reader of the repository; the model's acknowledged-change classification.",
+    "stateful property testing with an external-tool (git CLI) differential audit after every step",
+    "DESIGN.md section 3 C09",
+)
